@@ -152,6 +152,95 @@ func catalogue() []concOp {
 	return ops
 }
 
+type aliasProbe struct {
+	label string
+	mk    func() *astisub.Subtitles
+}
+
+// aliasProbes: calls that allocate what they return (readers, the operations that add cues)
+func aliasProbes() []aliasProbe {
+	var out []aliasProbe
+	for _, d := range testdataDocs() {
+		d := d
+		if len(d.Data) > 20000 {
+			continue
+		}
+		out = append(out, aliasProbe{"read-" + d.Fmt + ":" + d.Name, func() *astisub.Subtitles {
+			s, _ := readDoc(d.Fmt, bytes.NewReader(d.Data))
+			return s
+		}})
+	}
+	list := func() *astisub.Subtitles {
+		s := astisub.NewSubtitles()
+		for i := 0; i < 3; i++ {
+			s.Items = append(s.Items, &astisub.Item{StartAt: time.Duration(3*i) * time.Second, EndAt: time.Duration(3*i+2) * time.Second,
+				Lines: []astisub.Line{{Items: []astisub.LineItem{{Text: "text"}}}}})
+		}
+		return s
+	}
+	out = append(out, aliasProbe{"forceduration-filler", func() *astisub.Subtitles { s := list(); s.ForceDuration(30*time.Second, true); return s }})
+	out = append(out, aliasProbe{"fragment-pieces", func() *astisub.Subtitles { s := list(); s.Fragment(time.Second); return s }})
+	out = append(out, aliasProbe{"new-subtitles", func() *astisub.Subtitles { return astisub.NewSubtitles() }})
+	return out
+}
+
+// scribble overwrites what is reachable from s: cue times, texts, run attributes, definitions, metadata
+func scribble(s *astisub.Subtitles) {
+	if s == nil {
+		return
+	}
+	sa := func(a *astisub.StyleAttributes) {
+		if a != nil {
+			a.SSAFontName, a.WebVTTAlign, a.SRTBold = "scribbled", "scribbled", !a.SRTBold
+			for i := range a.WebVTTTags {
+				a.WebVTTTags[i].Name = "scribbled"
+			}
+			for i := range a.WebVTTStyles {
+				a.WebVTTStyles[i] = "scribbled"
+			}
+		}
+	}
+	for _, it := range s.Items {
+		if it == nil {
+			continue
+		}
+		it.StartAt, it.EndAt = -1, -1
+		sa(it.InlineStyle)
+		for i := range it.Comments {
+			it.Comments[i] = "scribbled"
+		}
+		for i := range it.Lines {
+			it.Lines[i].VoiceName = "scribbled"
+			for j := range it.Lines[i].Items {
+				it.Lines[i].Items[j].Text = "scribbled"
+				it.Lines[i].Items[j].StartAt = -1
+				sa(it.Lines[i].Items[j].InlineStyle)
+				it.Lines[i].Items[j].InlineStyle = &astisub.StyleAttributes{SSAFontName: "scribbled"}
+			}
+		}
+	}
+	for k, st := range s.Styles {
+		if st != nil {
+			st.ID = "scribbled"
+			sa(st.InlineStyle)
+		}
+		delete(s.Styles, k)
+	}
+	for k, rg := range s.Regions {
+		if rg != nil {
+			rg.ID = "scribbled"
+			sa(rg.InlineStyle)
+		}
+		delete(s.Regions, k)
+	}
+	if s.Metadata != nil {
+		s.Metadata.Title, s.Metadata.Language = "scribbled", "scribbled"
+		for i := range s.Metadata.Comments {
+			s.Metadata.Comments[i] = "scribbled"
+		}
+	}
+}
+
 // stateLeavingDocs: pairs of small documents of one format of which the first ends in the middle of something a
 // decoder keeps between characters, lines or packets (a floating accent without its letter, an emphasis tag that is
 // never closed) and the second would show it if that something outlived the call.
@@ -309,6 +398,19 @@ func cmdConc(args []string) error {
 		c := op.mk()
 		d := c.run()
 		put(concEvent{Mode: "alone", Call: op.label, Digest: d, Fpb: fpb, Fpa: astisub.VerifTablesFingerprint()})
+	}
+	// results of independent calls share no memory: the same call is made twice, everything reachable from the first
+	// result is overwritten, the second result must not change
+	for _, pr := range aliasProbes() {
+		fpb := astisub.VerifTablesFingerprint()
+		a, b := pr.mk(), pr.mk()
+		before := project.Digest(b)
+		scribble(a)
+		d := "same"
+		if project.Digest(b) != before {
+			d = "changed"
+		}
+		put(concEvent{Mode: "alias", Call: pr.label, Digest: d, Fpb: fpb, Fpa: astisub.VerifTablesFingerprint()})
 	}
 	// and once more in the opposite order: a call must not see what an earlier call of the same process left behind,
 	// whichever of two documents came first
